@@ -69,14 +69,18 @@ def class_distance(gem):
 
 
 def direct_case(seed, prop, idx, nmax=16, kmax=6, scales=(0.1, 0.5, 1.0, 2.0, 4.0, 8.0), nmin=1, big=False, big_n=64,
-                big_wass=32):
+                big_wass=32, huge=True):
     """Build (desc, gem, P, logits, A, X) for direct-call case number idx."""
     rng = gen.rng_for(seed, prop, "direct", idx)
     nonneg = bool(rng.random() < 0.25)
     desc = gen.random_gemini_desc(rng, nonneg=nonneg)
     n = int(rng.integers(nmin, nmax + 1))
     K = int(rng.integers(2, kmax + 1))
-    if big and rng.random() < 0.12:
+    if big and huge and rng.random() < 0.03 and not (isinstance(desc, dict) and desc.get("cls") == "WassersteinGEMINI"):
+        # a few very wide shapes (hundreds of samples, dozens of clusters): block-wise or chunked computations
+        n = int(rng.integers(100, 1500))
+        K = int(rng.integers(2, 49))
+    elif big and rng.random() < 0.12:
         # occasional wide shapes: a defect confined to many samples / many clusters must not hide behind small cases
         wass = isinstance(desc, dict) and desc.get("cls") == "WassersteinGEMINI"
         hi = big_wass if wass else big_n
